@@ -389,13 +389,16 @@ class Parser:
         return self.with_ns(False, go)
 
     def macro(self, name):
-        """`assert!(c, "msg")`, `panic!("msg")`, `vec![a, b]`, `vec![x; n]` - everything else is refused"""
+        """`assert!(c, "msg")`, `assert_eq!(a, b, "msg")`, `panic!("msg")`, `vec![a, b]`, `vec![x; n]` - everything else is refused"""
         self.next()                                  # `!`
-        if name in ("assert", "panic"):
+        if name in ("assert", "panic", "assert_eq"):
             self.expect("(")
             def go():
                 c = None
                 if name == "assert": c = self.expr()
+                if name == "assert_eq":                  # phase 4f: `assert_eq!(a, b, "msg")` = `assert!(a == b, "msg")` (operands evaluated left to right)
+                    l = self.expr(); self.expect(","); r = self.expr()
+                    return_eq = ("bin", "==", l, r)
                 # the message (string literals are not tokens of the subset): skip to the matching `)`
                 d = 1
                 while d > 0:
@@ -403,6 +406,7 @@ class Parser:
                     t = self.next()
                     if t == "(": d += 1
                     elif t == ")": d -= 1
+                if name == "assert_eq": return ("assert", return_eq)
                 return ("assert", c) if name == "assert" else ("panic",)
             return self.with_ns(False, go)
         if name == "vec":
@@ -930,7 +934,7 @@ class FnLower:
                     ai = self.abs_indexed(x, env, mark=False)
                     if ai is not None and ai[0] not in acc: acc.append(ai[0])
                     ex = self.extern_of(x, env)
-                    if ex is not None and (ex[0]["binder"], self.EXTERN_TY) not in acc: acc.append((ex[0]["binder"], self.EXTERN_TY))
+                    if ex is not None and (ex[0]["binder"], self.ext_ty(ex[0])) not in acc: acc.append((ex[0]["binder"], self.ext_ty(ex[0])))
                 except Unsupported: pass
             for y in x:
                 if isinstance(y, (tuple, list)): self.abs_in(y, env, acc)
@@ -941,7 +945,8 @@ class FnLower:
     # `&Vec<MultiplyU64ModOperand>`) are read-only lists: only `.len()` and (checked) indexing are accepted on them
     ABS_OBJ = {"List Nat": ("list", "list"), "Modulus": ("mod", "mod"), "List Modulus": ("modlist", "modlist"),
                "List MulOperand": ("moplist", "moplist")}
-    ABS_IDX = {"List Modulus": ("idxMod", "mod"), "List MulOperand": ("idxOp", ("struct", "MultiplyU64ModOperand")), "List Nat": ("idx", "u64")}
+    ABS_IDX = {"List Modulus": ("idxMod", "mod"), "List MulOperand": ("idxOp", ("struct", "MultiplyU64ModOperand")), "List Nat": ("idx", "u64"),
+               "List (List Nat)": ("idxRow", "list")}      # phase 4f: a `Vec<Vec<u64>>` field; `&m[i]` is a (read-only) row
 
     def abs_indexed(self, e, env, mark=True):
         """phase 4: an INDEXED abstraction - `<chain>[i]` / `<chain>.m(i)` where the table lists `<chain>[#]` / `<chain>.m(#)` as a list
@@ -979,7 +984,19 @@ class FnLower:
                 if ent.get("mcall") == e[2]:
                     ix = tab_index(e[1], ent)
                     if ix is not None: return (ent, ix, e[3][0], True)
+        if e[0] == "mcall" and len(e[3]) == 2:
+            # phase 4f: `<accessor chain>.method(&input, &mut output)` on an object the translator does not model (a `BaseConverter` field of
+            # `RNSTool`): an abstract FUNCTION input `F : List Nat -> List Nat -> R (List Nat)` (input, old output |-> new output)
+            rc = None
+            try: rc = self.canon(e[1], env)
+            except Exception: rc = None
+            if rc is not None:
+                for ent in exts:
+                    if ent.get("rcall") == f"{rc}.{e[2]}": return (ent, None, (e[3][0], e[3][1]), "rcall")
         return None
+
+    RCALL_TY = "List Nat → List Nat → R (List Nat)"
+    def ext_ty(self, ent): return self.RCALL_TY if "rcall" in ent else self.EXTERN_TY
 
     def ex_m(self, e, env, ops):
         k = e[0]
@@ -1549,6 +1566,12 @@ class FnLower:
                 return Val(t, "list", [t])
         ab = self.abstracted(a2, env)
         if ab is not None and ab[1] is not None and ab[1][1] == "List Nat": return Val(ab[1][0], "list", [ab[1][0]])
+        ai = self.abs_indexed(a2, env)
+        if ai is not None and ai[0][1] == "List (List Nat)":          # phase 4f: a row of an abstracted `Vec<Vec<u64>>` (bounds-checked read)
+            (name, ty), ixe = ai
+            i = self.word(self.ex(ixe, env, ops), "index")
+            t = self.tmp(); ops.append(("bind", t, f"{self.ABS_IDX[ty][0]} {name} {i.atom}")); self.monadic_used = True
+            return Val(t, "list", [t])
         self.fail(f"{what}: slice argument")
 
     def mlist_arg(self, a, env, ops, what):
@@ -1574,6 +1597,15 @@ class FnLower:
     def extern_call(self, exn, env, ops):
         ent, ixe, data, recv_first = exn
         cell = {}
+        if recv_first == "rcall":                        # phase 4f: `recv.method(&input, &mut output)`; arguments in evaluation order
+            def th_in(): return self.list_arg(data[0], env, ops, f"extern {ent['binder']}")
+            def th_out():
+                v, name, wb = self.mlist_arg(data[1], env, ops, f"extern {ent['binder']}"); cell["x"] = (name, wb); return v
+            iv, ov = self.seq([th_in, th_out], ops)
+            self.extern_used.add(ent["binder"])
+            ops.append(("bind", cell["x"][0], f"{ent['binder']} {iv.atom} {ov.atom}")); self.monadic_used = True
+            cell["x"][1]()
+            return ("v", Val("()", "unit"))
         def th_ix(): return self.word(self.ex(ixe, env, ops), "table index")
         def th_data():
             v, name, wb = self.mlist_arg(data, env, ops, f"extern {ent['binder']}"); cell["x"] = (name, wb); return v
@@ -2090,6 +2122,11 @@ class FnLower2(FnLower):
                 if x not in cap_names: cap_names.append(x); cap_binders.append(f"({x} : {tyl})")
         for (bn, bt) in (self.abs_in([body[0], body[1]], env) if self.abs else []):
             if bn not in cap_names: cap_names.append(bn); cap_binders.append(f"({bn} : {bt})")
+        if self.abs and not self.loop_stack:
+            # phase 4f: the continuation of a top-level `for` is emitted inside it (at exhaustion): the abstracted inputs the REST of the
+            # function reads are captured too (before: an unbound identifier in the generated file, i.e. no such function was ever accepted)
+            for (bn, bt) in self.abs_in([list(stmts[i + 1:]), tail] if tail is not None else [list(stmts[i + 1:])], env):
+                if bn not in cap_names: cap_names.append(bn); cap_binders.append(f"({bn} : {bt})")
         if self.opts.get("alias_abstract"):
             # captured inputs in TABLE order after the ordinary locals (independent of the order of the `let`s that name them)
             order = {ent[0]: q for q, ent in enumerate(e for e in self.abs.values() if e is not None)}
@@ -2588,7 +2625,7 @@ class FnTranslate(FnLower2):
             if ent is not None: self.binders.append(f"({ent[0]} : {ent[1]})")
         seen_ext = []
         for ent in self.opts.get("extern", []):          # abstract FUNCTION inputs (phase 4), after the accessor inputs
-            if ent["binder"] not in seen_ext: seen_ext.append(ent["binder"]); self.binders.append(f"({ent['binder']} : {self.EXTERN_TY})")
+            if ent["binder"] not in seen_ext: seen_ext.append(ent["binder"]); self.binders.append(f"({ent['binder']} : {self.ext_ty(ent)})")
         rt = self.rty(fn["ret"])
         if rt == ("tuple", []): ret = "unit"
         elif rt[0] == "name" and rt[1] in ("u64", "usize", "u8", "bool", "u32"): ret = rt[1]
@@ -3249,10 +3286,21 @@ TABLE_RNS = [
     {"file": UR, "fn": "mod_t_and_divide_q_last_ntt_inplace", "impl": "RNSTool", "model": "RNSTool.modTAndDivideQLastNtt", "nested_loops": True,
      "abstract": RNS_QB, "opaque": ["NTTTables"],
      "extern": [{"call": "polymod::intt", "tables": "rns_ntt_tables", "binder": "inttF"}, {"call": "polymod::ntt", "tables": "rns_ntt_tables", "binder": "nttF"}]},
+    {"file": UR, "fn": "fast_convert_array", "impl": "BaseConverter", "model": "BaseConverter.fastConvertArray", "nested_loops": True,
+     "abstract": [("self.ibase.len()", "ibaseSize", "Nat"), ("self.obase.len()", "obaseSize", "Nat"),
+                  ("self.ibase.inv_punctured_prod_mod_base()[#]", "invPunct", "List MulOperand"),
+                  ("self.ibase.base_at(#)", "ibase", "List Modulus"), ("self.obase.base_at(#)", "obase", "List Modulus"),
+                  ("self.base_change_matrix[#]", "matrix", "List (List Nat)")]},
+    {"file": UR, "fn": "fast_floor", "impl": "RNSTool", "model": "RNSTool.fastFloor", "nested_loops": True,
+     "abstract": [("self.base_q.len()", "qSize", "Nat"), ("self.base_Bsk.len()", "bskSize", "Nat"), ("self.coeff_count", "coeffCount", "Nat"),
+                  ("self.base_Bsk.base_at(#)", "baseBsk", "List Modulus"), ("self.inv_prod_q_mod_Bsk[#]", "invProdQModBsk", "List MulOperand")],
+     "extern": [{"rcall": "self.base_q_to_Bsk_conv.fast_convert_array", "binder": "qToBskF"}]},
 ]
 PRELUDE_RNS = """/-- bounds-checked reads of the list inputs that stand for `Vec<Modulus>` / `Vec<MultiplyU64ModOperand>` fields -/
 def idxMod (l : List Modulus) (i : Nat) : R Modulus := match l[i]? with | some x => .ok x | none => .error .oob
 def idxOp (l : List MulOperand) (i : Nat) : R MulOperand := match l[i]? with | some x => .ok x | none => .error .oob
+/-- bounds-checked read of a row of a `Vec<Vec<u64>>` field (`&self.base_change_matrix[i]`) -/
+def idxRow (l : List (List Nat)) (i : Nat) : R (List Nat) := match l[i]? with | some x => .ok x | none => .error .oob
 /-- `&s[a..b]`: panics unless `a <= b <= s.len()` -/
 def slice (l : List Nat) (a b : Nat) : R (List Nat) := if a ≤ b ∧ b ≤ l.length then .ok ((l.drop a).take (b - a)) else .error .oob
 /-- write a callee's result for `&mut s[a..]` back (the callee cannot change the length of the sub-slice) -/
